@@ -899,32 +899,33 @@ func (c *Ctx) classifyErrSite(in ssa.Instruction) (int64, string) {
 	return 0, ""
 }
 
-// wsWriterChoice: R09.7 — in the call spawner, the writer provider handed to the dispatcher.
+// wsWriterChoice: R09.7 — at every point where a WebSocket call is handed to the dispatcher, the
+// writer provider is never nil, the locked message writer is chosen only where the request is
+// known to carry an id, and a discarding provider is what id-less requests get.
 func (c *Ctx) wsWriterChoice(rule string) {
-	p, r := c.P, c.R
+	p := c.P
 	w := c.ws()
-	if !c.needWS(rule, "spawn", w.Spawn) || !c.needWS(rule, "nextWriter", w.NextWriter) {
+	if !c.needWS(rule, "nextWriter", w.NextWriter) {
 		return
 	}
-	n := 0
-	var invokes []ssa.Instruction
-	for _, g := range withAnon(w.Spawn) {
-		allInstrs(g, func(in ssa.Instruction) {
-			ci, ok := in.(ssa.CallInstruction)
-			if ok && ci.Common().IsInvoke() && r.IDisp != nil && ci.Common().Value.Type() == types.Type(r.IDisp) {
-				invokes = append(invokes, in)
-			}
-		})
+	invs := c.dispInvokes()
+	if len(invs) == 0 {
+		c.und(rule, "dispatcher invocation", "-", "no invocation of the dispatcher interface found")
+		return
 	}
 	type cand struct {
 		v     ssa.Value
 		conds []condFact
-		cond  bool // conds meaningful
 	}
-	for _, in := range invokes {
+	sawDiscard, sawLocked := false, false
+	okAll := true
+	var first ssa.Instruction
+	for _, in := range invs {
+		if first == nil {
+			first = in
+		}
 		ci := in.(ssa.CallInstruction)
-		n++
-		construct := fmt.Sprintf("%s: writer handed to the dispatcher", fname(w.Spawn))
+		construct := fmt.Sprintf("%s: writer handed to the dispatcher", fname(outermost(in.Parent())))
 		var prov ssa.Value
 		for _, a := range ci.Common().Args {
 			if isWriterProviderType(a.Type()) {
@@ -933,40 +934,73 @@ func (c *Ctx) wsWriterChoice(rule string) {
 		}
 		if prov == nil {
 			c.und(rule, construct, c.ipos(in), "no writer-provider argument found")
+			okAll = false
 			continue
 		}
+		site := expandConds(impliedCondsIP(in.Block(), 0))
 		var cands []cand
-		switch x := prov.(type) {
-		case *ssa.Phi:
-			for i, e := range x.Edges {
-				cands = append(cands, cand{e, edgeConds(x.Block().Preds[i], x.Block()), true})
+		var collect func(v ssa.Value, conds []condFact, d int)
+		collect = func(v ssa.Value, conds []condFact, d int) {
+			if d > 6 {
+				cands = append(cands, cand{v, conds})
+				return
 			}
-		case *ssa.UnOp:
-			addr := p.canonVar(x.X)
-			if al, ok := addr.(*ssa.Alloc); ok && x.Op == token.MUL {
-				for _, ref := range *al.Referrers() {
-					if st, ok := ref.(*ssa.Store); ok && st.Addr == ssa.Value(al) {
-						cands = append(cands, cand{st.Val, expandConds(impliedConds(st.Block())), true})
+			switch x := v.(type) {
+			case *ssa.Phi:
+				for i, e := range x.Edges {
+					collect(e, append(append([]condFact{}, conds...), edgeConds(x.Block().Preds[i], x.Block())...), d+1)
+				}
+			case *ssa.UnOp:
+				if x.Op == token.MUL {
+					addr := p.canonVar(x.X)
+					if al, ok := addr.(*ssa.Alloc); ok {
+						n := 0
+						for _, ref := range *al.Referrers() {
+							if st, ok := ref.(*ssa.Store); ok && st.Addr == ssa.Value(al) {
+								n++
+								collect(st.Val, append(append([]condFact{}, conds...), expandConds(impliedCondsIP(st.Block(), 0))...), d+1)
+							}
+						}
+						if n > 0 {
+							return
+						}
 					}
 				}
+				cands = append(cands, cand{v, conds})
+			case *ssa.Parameter:
+				// forwarded by a helper: look at the arguments of its synchronous callers
+				fn := x.Parent()
+				idx := -1
+				for i, q := range fn.Params {
+					if q == x {
+						idx = i
+					}
+				}
+				sites := p.callers[fn]
+				if idx < 0 || len(sites) == 0 {
+					cands = append(cands, cand{v, conds})
+					return
+				}
+				for _, s := range sites {
+					if idx < len(s.Common().Args) {
+						collect(s.Common().Args[idx], append(append([]condFact{}, conds...), expandConds(impliedCondsIP(s.Block(), 0))...), d+1)
+					}
+				}
+			default:
+				cands = append(cands, cand{v, conds})
 			}
 		}
-		if len(cands) == 0 {
-			cands = []cand{{prov, nil, false}}
-		}
-		okAll := true
-		sawDiscard, sawLocked := false, false
+		collect(prov, site, 0)
 		for _, cd := range cands {
-			e := cd.v
 			var efn *ssa.Function
-			switch x := e.(type) {
+			switch x := cd.v.(type) {
 			case *ssa.MakeClosure:
 				efn, _ = x.Fn.(*ssa.Function)
 			case *ssa.Function:
 				efn = x
 			}
 			switch {
-			case isNilConst(e):
+			case isNilConst(cd.v):
 				okAll = false
 				c.bad(rule, construct, c.ipos(in), "a nil writer provider is handed to the dispatcher: an error reply for such a request (unknown method, panic in a notification handler) calls a nil function and crashes the process")
 			case efn != nil && p.unbound(efn) == w.NextWriter:
@@ -977,12 +1011,9 @@ func (c *Ctx) wsWriterChoice(rule string) {
 						nonNil = true
 					}
 				}
-				if !cd.cond || len(cands) == 1 {
+				if !nonNil {
 					okAll = false
-					c.bad(rule, construct, c.ipos(in), "every request, including notifications, gets the real message writer: failing notifications are answered with an id:null frame")
-				} else if !nonNil {
-					okAll = false
-					c.bad(rule, construct, c.ipos(in), "the real message writer is handed out on a path where the request may have no id: a notification would be answered on the wire")
+					c.bad(rule, construct, c.ipos(in), "the real message writer is handed out on a path where the request may have no id: a failing notification would be answered on the wire with an id:null frame")
 				}
 			case efn != nil && c.isDiscardProvider(efn):
 				sawDiscard = true
@@ -991,16 +1022,13 @@ func (c *Ctx) wsWriterChoice(rule string) {
 				c.bad(rule, construct, c.ipos(in), "unrecognised writer provider")
 			}
 		}
-		if okAll && !(sawDiscard && sawLocked) {
-			okAll = false
-			c.bad(rule, construct, c.ipos(in), "expected a discarding provider for notifications and the locked writer for id-bearing requests")
-		}
-		if okAll {
-			c.ok(rule, construct, c.ipos(in), "discarding provider by default; locked writer only under id != nil")
-		}
 	}
-	if n == 0 {
-		c.und(rule, fname(w.Spawn)+": dispatcher invocation", p.pos(w.Spawn.Pos()), "no invocation of the dispatcher interface found in the call spawner")
+	if okAll && !(sawDiscard && sawLocked) {
+		okAll = false
+		c.bad(rule, "writer handed to the dispatcher", c.ipos(first), "expected a discarding provider for notifications and the locked writer for id-bearing requests")
+	}
+	if okAll {
+		c.ok(rule, "writer handed to the dispatcher", c.ipos(first), "never nil; discarding provider for id-less requests; locked writer only under id != nil")
 	}
 }
 
